@@ -395,6 +395,8 @@ pub fn units(prop: &str, tier: Tier) -> Option<Vec<Unit>> {
                     .clone_mode()
                     .unit(),
                 e1("kext-plain-vs-clone", "extended class <= 3 nodes: plain vs through Clone (differential)".into(), dup(en::k_ext().upto(3))).probes(NOPROBE).pairs(PairMode::Exact).clone_mode().unit(),
+                Unit::Custom { name: "histories".into(), run: Box::new(move |cx| eng_hist::run("histories", tier, cx)) },
+                Unit::Custom { name: "threads".into(), run: Box::new(move |cx| eng_hist::run("threads", tier, cx)) },
             ]
         }
         "C14" => eng_text::units(tier)
